@@ -18,6 +18,8 @@ ASSUMPTIONS = ["process-crash model (completed system calls persist; the log fil
 MIN = {"quick": {"evaluations": 15000, "nontrivial": 5000, "outcomes": 3}}
 
 KINDS = ["b1", "b3", "t1", "b4", "reopen"]
+PRE = [0]       # rotated files that existed before the LogFile was created (current execution)
+NEWROT = [0]    # rotations performed by the LogFile in the current execution
 CONFIGS = [(rl, mx) for rl in (1, 3, 4) for mx in (None, 1, 2)]
 
 
@@ -74,7 +76,8 @@ def check_files(d, written, cfg, rotations, crashed, partial_ok=b""):
         else:
             if not stream.endswith(retained):
                 bad.append(("retained-not-a-suffix", "files hold %r, written %r" % (retained, stream)))
-            want = min(mx, rotations)
+            total = rotations + PRE[0]
+            want = min(mx, total) if (NEWROT[0] or PRE[0] <= mx) else PRE[0]   # nothing is trimmed before the first rotation
             if len(nums) != want or nums != list(range(want, 0, -1)):
                 bad.append(("retention-count", "rotated files %r, expected the newest %d" % (nums, want)))
         return bad
@@ -97,14 +100,24 @@ def check_files(d, written, cfg, rotations, crashed, partial_ok=b""):
     return bad
 
 
-def run_history(d, cfg, hist, plan=None, tail=()):
-    """Run a history crash-free except that the *last* op runs under the crash plan.  Returns bad list and info."""
+def run_history(d, cfg, hist, plan=None, tail=(), pre=0):
+    """Run a history crash-free except that the *last* op runs under the crash plan.  Returns bad list and info.
+    pre = number of rotated files (log.1 .. log.<pre>) that already exist when the LogFile is created
+    (a restarted process; more than 9 exercises two-digit suffixes, more than maxRotatedFiles a lowered
+    retention count)."""
     from twisted.python.logfile import LogFile
     shutil.rmtree(d, ignore_errors=True)
     os.makedirs(d)
     rl, mx = cfg
-    lf = LogFile("log", d, rotateLength=rl, maxRotatedFiles=mx)
     written, bad, rotations, info = [], [], 0, {"rotating_last": False, "ops": []}
+    for k in range(pre, 0, -1):
+        content = bytes([0x80 + k]) * max(rl, 1)
+        with real_open(os.path.join(d, "log.%d" % k), "wb") as f:
+            f.write(content)
+        written.append(content)
+    PRE[0] = pre
+    NEWROT[0] = 0
+    lf = LogFile("log", d, rotateLength=rl, maxRotatedFiles=mx)
 
     def count_rot():
         return len([n for n in os.listdir(d) if n.startswith("log.")])
@@ -160,6 +173,7 @@ def run_history(d, cfg, hist, plan=None, tail=()):
         # a rotation happened iff the current file restarted
         if c is not None and os.path.getsize(os.path.join(d, "log")) == len(as_bytes(c)) and cur_before > 0:
             rotations += 1
+            NEWROT[0] += 1
             if last:
                 info["rotating_last"] = True
         bad += check_files(d, written, cfg, rotations, False)
@@ -181,13 +195,20 @@ def histories(n):
             yield h
 
 
+PRE_CONFIGS = [((1, None), 10), ((3, None), 11), ((1, 2), 3), ((3, 1), 2), ((1, 12), 12)]
+
+
 def shards(tier, seed):
     n = 4 if tier == "quick" else 6
     hs = list(histories(n))
     out = []
     for cfg in CONFIGS:
         for part in split(hs, 6 if tier == "quick" else 16):
-            out.append((cfg, part))
+            out.append((cfg, part, 0))
+    hs2 = list(histories(3 if tier == "quick" else 4))
+    for cfg, pre in PRE_CONFIGS:
+        for part in split(hs2, 2 if tier == "quick" else 4):
+            out.append((cfg, part, pre))
     return out
 
 
@@ -195,34 +216,34 @@ TAILS = [("b1", "b4"), ("b4", "b3")]
 
 
 def run_shard(shard, tier, seed):
-    cfg, hs = shard
+    cfg, hs, pre = shard
     cfg = tuple(cfg)
     st = Stats()
     d = "/dev/shm/verif-C53-%d" % os.getpid()
     try:
         for h in hs:
-            bad, info = run_history(d, cfg, h)
+            bad, info = run_history(d, cfg, h, pre=pre)
             st.evaluations += 1
             st.outcome("rotations>=1" if info.get("rotations") else "no-rotation")
             if info.get("rotations"):
-                st.nt((cfg, h))
+                st.nt((cfg, h, pre))
             for sig, detail in bad:
-                st.violation(sig, {"what": detail, "config": cfg, "history": h}, {"config": cfg, "history": h, "plan": None, "tail": None})
+                st.violation(sig, {"what": detail, "config": cfg, "history": h}, {"config": cfg, "history": h, "plan": None, "tail": None, "pre": pre})
             if bad or not info.get("rotating_last"):
                 continue
             # crash enumeration inside the rotating write
-            b0, i0 = run_history(d, cfg, h, plan=(10 ** 6, None))
+            b0, i0 = run_history(d, cfg, h, plan=(10 ** 6, None), pre=pre)
             ops = i0["ops"]
             for plan in crash_plans(ops):
                 for tail in TAILS:
-                    bad, info = run_history(d, cfg, h, plan=plan, tail=tail)
+                    bad, info = run_history(d, cfg, h, plan=plan, tail=tail, pre=pre)
                     st.evaluations += 1
                     st.outcome("crash-in-rotate")
                     if 0 < plan[0]:
-                        st.nt((cfg, h, plan))
+                        st.nt((cfg, h, plan, pre))
                     for sig, detail in bad:
                         st.violation(sig, {"what": detail, "config": cfg, "history": h, "plan": plan, "syscalls": ops},
-                                     {"config": cfg, "history": h, "plan": plan, "tail": tail})
+                                     {"config": cfg, "history": h, "plan": plan, "tail": tail, "pre": pre})
             if len(st.samples) < 1:
                 st.sample({"config": cfg, "history": h, "syscalls_of_rotating_write": ops})
     finally:
@@ -234,6 +255,6 @@ def replay(w):
     d = "/dev/shm/verif-C53-%d" % os.getpid()
     try:
         plan = tuple(w["plan"]) if w.get("plan") else None
-        return run_history(d, tuple(w["config"]), tuple(w["history"]), plan=plan, tail=tuple(w.get("tail") or ()))[0]
+        return run_history(d, tuple(w["config"]), tuple(w["history"]), plan=plan, tail=tuple(w.get("tail") or ()), pre=w.get("pre", 0))[0]
     finally:
         shutil.rmtree(d, ignore_errors=True)
